@@ -62,6 +62,21 @@ impl From<StorageError> for ClientError {
     #[verifier::external_body]
     fn from(_e: StorageError) -> ClientError { ClientError::Other }
 }
+/// `sos_search::Error` (crates/search/src/error.rs): the variant constructed here + the `#[from]` wrappers
+pub enum SearchError { NoSecretId(VaultId, SecretId), Other }
+#[verifier::external]
+impl core::fmt::Debug for SearchError { fn fmt(&self, f: &mut core::fmt::Formatter<'_>) -> core::fmt::Result { Ok(()) } }
+pub type SeResult<T> = core::result::Result<T, SearchError>;
+impl From<BackendError> for SearchError {
+    /// `#[from] sos_backend::Error`
+    #[verifier::external_body]
+    fn from(_e: BackendError) -> SearchError { SearchError::Other }
+}
+impl From<SearchError> for ClientError {
+    /// `#[from] sos_search::Error`
+    #[verifier::external_body]
+    fn from(_e: SearchError) -> ClientError { ClientError::Other }
+}
 impl From<AuthenticationError> for ClientError {
     /// `#[from] sos_core::AuthenticationError`
     #[verifier::external_body]
@@ -328,6 +343,49 @@ impl AccessPoint {
             r is Ok ==> final(self).vv() == vault@ && (mirror_changes ==> final(self).mirrored()),
     { unimplemented!() }
 }
+/// `sos_core::crypto::AccessKey` (password or age identity) — opaque
+#[verifier::external_body]
+pub struct AccessKey { _p: () }
+/// the key context an access point holds after `unlock(key)` succeeded on a vault: cipher of the
+/// vault + the private key derived from `key` with the vault's kdf, salt and seed (vaultmem
+/// `private_of(vault, key)`); a function of the vault header and the key
+pub uninterp spec fn unlock_ctx(head: HeadV, key: AccessKey) -> KeyCtx;
+impl AccessPoint {
+    /// backend/src/access_point.rs:26 `from_vault` -> vault/src/access_point.rs `AccessPoint::new`:
+    /// `{ vault, private_key: None, mirror: None }`
+    #[verifier::external_body]
+    pub fn from_vault(vault: Vault) -> (r: AccessPoint)
+        ensures r.vv() == vault@, !r.unlocked(),
+    { unimplemented!() }
+    /// vaultmem [vault_is_field]
+    #[verifier::external_body]
+    pub fn vault(&self) -> (r: &Vault)
+        ensures r@ == self.vv(),
+    { unimplemented!() }
+    /// access_point.rs `id()`: `self.vault.id()` = `&header.summary.id`
+    #[verifier::external_body]
+    pub fn id(&self) -> (r: &VaultId)
+        ensures r@ == vault_id(self.vv()),
+    { unimplemented!() }
+    /// vaultmem [unlock_only_with_own_key], [unlock_frame]
+    #[verifier::external_body]
+    pub fn unlock(&mut self, key: &AccessKey) -> (r: BkResult<VaultMeta>)
+        ensures
+            final(self).vv() == old(self).vv(), final(self).mirrored() == old(self).mirrored(),
+            r is Ok ==> final(self).unlocked() && final(self).kc() == unlock_ctx(old(self).vv().head, *key),
+    { unimplemented!() }
+    /// vaultmem [lock_drops_key]
+    #[verifier::external_body]
+    pub fn lock(&mut self)
+        ensures final(self).vv() == old(self).vv(), !final(self).unlocked(), final(self).mirrored() == old(self).mirrored(),
+    { unimplemented!() }
+}
+/// R12: `for id in vault.keys()` (vault.rs:805 `self.contents.data.keys()`, IndexMap order) is
+/// rewritten to `for id in it: vkeys(vault)`: the ids of the rows, in order
+#[verifier::external_body]
+pub fn vkeys(v: &Vault) -> (r: Vec<&SecretId>)
+    ensures r@.len() == v@.secrets.len(), forall|i: int| 0 <= i < r@.len() ==> (#[trigger] r@[i])@ == v@.secrets[i].0,
+{ unimplemented!() }
 /// `sos_core::crypto::PrivateKey` — opaque (only `None::<&PrivateKey>` is passed here)
 #[verifier::external_body]
 pub struct PrivateKey { _p: () }
